@@ -184,6 +184,7 @@ func ruleAztecTables(c *Ctx) {
 	}
 	// mode constants
 	const R0 = "A0-AZTEC-MODES"
+	c.Doc(R0, "the five Aztec mode constants are distinct; layer limits 32 (full range) and 4 (compact); DEFAULT_LAYERS = 0 means automatic")
 	modes := []string{"mode_upper", "mode_lower", "mode_digit", "mode_mixed", "mode_punct"}
 	mv := map[string]int64{}
 	for _, m := range modes {
